@@ -228,6 +228,14 @@ def ntt_configs(tier, seed=0):
     for ncols in ((131, 1031) if tier == 'quick' else (131, 520, 1031, 4099)):
         for n, nphase, nblock, buf, dstmode in ((2, 2, 1, False, 'src'), (2, 3, 1, False, 'other'), (4, 2, 2, True, 'src')):
             out.append((n, n, ncols, nphase, nblock, buf, dstmode, 1))
+    # objects built for several threads, interpreted with a team of ONE abstract thread (OpenMP never promises the team that was
+    # asked for): work-sharing loops still cover every iteration; a hand-made partition that divides by the requested thread count
+    # but indexes by the thread number loses the slabs of the threads that are not there
+    if tier == 'quick':
+        for cap, n in ((8, 8), (16, 16), (16, 4)):
+            for ncols, nphase, nblock, buf, dstmode in ((3, 2, 1, False, 'src'), (3, 3, 1, False, 'other'), (5, 2, 2, True, 'null'), (1, 1, 1, False, 'src')):
+                for nthreads in (2, 3):
+                    out.append((cap, n, ncols, nphase, nblock, buf, dstmode, nthreads))
     # threshold-directed shapes: both sides of every integer constant the transform code has that the pinned tree did not
     from . import thresholds
     extra, skipped = thresholds.ntt_extra(thresholds.new_thresholds('ntt'), tier)
@@ -268,6 +276,12 @@ def ext_configs(tier, seed=0):
     for ncols in ((131, 1031) if tier == 'quick' else (131, 520, 1031, 4099)):
         for N, Next, nphase, nblock, buf, inplace in ((2, 4, 2, 1, False, True), (2, 4, 3, 1, True, False), (1, 2, 2, 1, False, True), (2, 4, 2, 2, False, True)):
             out.append((max(N, 2), N, Next, ncols, nphase, nblock, buf, 1, inplace))
+    if tier == 'quick':
+        # objects built for several threads under a team of one abstract thread (see ntt_configs)
+        for capN, N, Next in ((8, 8, 16), (16, 4, 16), (8, 8, 8)):
+            for ncols, nphase, nblock, buf, inplace in ((3, 2, 1, False, True), (3, 3, 1, True, False), (5, 2, 2, False, True)):
+                for nthreads in (2, 3):
+                    out.append((capN, N, Next, ncols, nphase, nblock, buf, nthreads, inplace))
     from . import thresholds
     extra, skipped = thresholds.ext_extra(thresholds.new_thresholds('ntt'), tier)
     out += extra
